@@ -39,7 +39,8 @@ def main():
         extra = sys.argv[sys.argv.index('--extra') + 1].split(',')
     src = '/tmp/seed/%s.out%s' % (prop, '' if letter in 'AB' else (
         '2' if letter in 'CD' else ('4' if letter in 'EF' else (
-            '5' if letter in 'GH' else ('7' if letter in 'IJ' else '8')))))
+            '5' if letter in 'GH' else ('7' if letter in 'IJ' else (
+                '8' if letter in 'KL' else '9'))))))
     patch = os.path.join(src, 'patch_%s.diff' % letter)
     demo = os.path.join(src, 'demo_%s.py' % letter)
     meta_in = {}
